@@ -152,14 +152,14 @@ theorem renderItems_emitDeserialize (S : Schema) (d : StructDef) :
 /-- the body of `deserialize` / `_deserialize`: prologue, the rendered member statements, epilogue -/
 theorem deserializeBody_eq (S : Schema) (ty : String) (d : StructDef) :
     deserializeBody S ty d =
-      ((if d.abstract then (if (ownFields d).any (·.name == "size") then [] else ["size_ = len(buffer)"])
+      ((if d.abstract then (if (ownSizeMember d).isSome then [] else ["size_ = len(buffer)"])
         else ["buffer = memoryview(payload)", "instance = " ++ ty ++ "()"]) ++
        (match d.base with
         | some b => ["(window_start, window_end) = " ++ b ++ "._deserialize(buffer, instance)", "buffer = buffer[window_start:window_end]"]
         | none => [])) ++
       renderItems (emitDeserialize S d) ++ ["", "# pylint: disable=protected-access"] ++
       (((ownFields d).filter fun f => f.kind.carries).map fun f => "instance._" ++ printerName f.name ++ " = " ++ printerName f.name) ++
-      [if d.abstract then "return (size_ - len(buffer), size_)" else "return instance"] := by
+      [if d.abstract then "return (" ++ sizeLocal d ++ " - len(buffer), " ++ sizeLocal d ++ ")" else "return instance"] := by
   rw [renderItems_emitDeserialize]
   unfold deserializeBody
   cases d.base <;> rfl
